@@ -24,6 +24,7 @@ def invocations(p, bs, backup, out):
            ('e2fsck -nfvtt', [T['e2fsck'], '-n', '-f', '-v', '-t', '-t', p]), ('e2fsck -n -b', [T['e2fsck'], '-n', '-b', str(backup), '-B', str(bs), p]),
            ('e2fsck -n -E unshare_blocks', [T['e2fsck'], '-n', '-E', 'unshare_blocks', p]), ('e2fsck -n -E unshare_blocks -b', [T['e2fsck'], '-n', '-E', 'unshare_blocks', '-b', str(backup), '-B', str(bs), p]),
            ('e2fsck -n -E bmap2extent,discard', [T['e2fsck'], '-fn', '-E', 'bmap2extent,discard', p]),
+           ('e2fsck -n -z', [T['e2fsck'], '-n', '-z', out, p]), ('debugfs -z without -w', [T['debugfs'], '-z', out, '-R', 'stats', p]),      # read-only runs through the undo I/O manager
            ('resize2fs -P -f', [T['resize2fs'], '-P', '-f', p]), ('e2freefrag -c', [T['e2freefrag'], '-c', '4', p]),
            ('e2image -ra', [T['e2image'], '-ra', p, out]), ('e2image -Qa', [T['e2image'], '-Qa', p, out]),
            ('mke2fs -n ext4', [T['mke2fs'], '-n', '-F', '-t', 'ext4', '-O', 'quota', '-d', '/nonexistent', p])]
